@@ -242,6 +242,26 @@ theorem replay_into_refined_store {σ : Type} {I : Impl σ} {inv : σ → Prop} 
   rw [C24.replay_commutes]
   exact ⟨r.write s b h, r.write s b h⟩
 
+/-- kvdb/leveldb `batch.Replay` into a flushable batch (or store) hands over exactly the recorded
+    operations, empty values included (goleveldb's nil-for-empty is undone by the replayer) -/
+theorem ldb_replay_keeps_ops (b : List Op) : ((ldbEngineReplay b).map ldbReplayer).map cacheBatchOp = b := by
+  unfold ldbEngineReplay
+  rw [List.map_map, List.map_map]
+  conv => rhs; rw [← List.map_id b]
+  apply List.map_congr_left
+  intro op _
+  cases op with
+  | del k => rfl
+  | put k v =>
+    cases v with
+    | nil => rfl
+    | cons a as => rfl
+
+/-- negative witness, pre-fix behaviour (before 228cf31 the replayer forwarded the nil value):
+    an empty value replayed from a LevelDB batch reached the flushable batch as a deletion -/
+example : (ldbEngineReplay [.put [1] []]).map cacheBatchOp = [.del [1]] ∧
+    (ldbEngineReplay [.put [1] []]).map cacheBatchOp ≠ [.put [1] []] := by decide
+
 /-- empty values are values: writing `k ↦ ""` makes `k` present in every refined store -/
 theorem empty_value_is_present {σ : Type} {I : Impl σ} {inv : σ → Prop} {abs : σ → KV} (r : Refines I inv abs)
     (s : σ) (h : inv s) (k : Bytes) :
